@@ -8,7 +8,13 @@ C15  Saved programs load back identically in every file format.
      a disk mount (Z:), a bound file on the internal device (@:) or a cassette image (CAS1:), close
      the Session, open a fresh one on the same scratch tree ("restart": only durable state
      survives), LOAD (or MERGE) and compare; the same with an I/O error injected into the save;
-     the same with the saved file torn (truncated / one byte altered) before the load; the
+     the same with the saved file torn (truncated / one byte altered) before the load; a save whose
+     last flush fails at close (the buffered tail never reaches the file): a SAVE that reported no error is
+     acknowledged and must load back identically, one that reported an error may leave anything; OPEN of a
+     data file under the name of a later SAVE failing inside the host open (EACCES/EMFILE/EIO/ENOSPC);
+     bounded liveness ("settle"): once the faults have stopped and files are closed, SAVE in every format under
+     every name a faulted statement was aimed at succeeds in the Session that saw the faults and LOAD in a
+     second Session gives the program back; the
      command-line converter (pcbasic.main.main("--convert=..")) against LOAD+SAVE in a Session;
      the protection cipher on byte strings covering every (position mod 143, byte) pair.
 
@@ -19,7 +25,12 @@ C16  A protected program never discloses its text in direct mode.
      typed by function-key macros). Information-flow oracle: no 6-byte window of any marker may
      ever appear in the output pipe, the output stream, get_chars, the text of video `update`
      signals, any scratch file that is not a ,P file (first byte FE), the LPT1 capture, the tape
-     image, or variables assigned by direct-mode statements. Expectation oracle (only while the
+     image, or variables assigned by direct-mode statements; the same for any 6-byte window of the
+     program's tokenised image that holds at least two non-printable bytes (raw program bytes, not only
+     markers). Histories include SAVE with ,A / ,P / no option aimed at LPT1: SCRN: CAS1: COM1: KYBD: and
+     disk, and an unprotected loader that assigns literals to COMMON (or CHAIN ,ALL) variables and CHAINs
+     to the protected file, after which direct mode prints/writes those variables (their values must be
+     what the loader assigned). Expectation oracle (only while the
      model knows that the program is protected and no error trap can swallow the message):
      LIST/LLIST/EDIT/SAVE (A,B)/PEEK/BSAVE/MERGE/CHAIN MERGE/line entry end in error 5,
      SAVE ,P succeeds and its file starts with the original ,P file's bytes, RUN prints what the
@@ -307,10 +318,12 @@ def _gen15(rng, tier):
             dev, nm = rng.choice(touched)
         if faulty and 0.30 <= r < 0.37:
             # a data file is opened under a name that a program will later be saved under, and the host open fails
-            at = rng.choice(['open'] * 7 + ['close', 'seek', 'read'])
-            dev = rng.choice(['Z', 'Z', 'Z', '@'])
-            ops.append({'op': 'openfault', 'dev': dev, 'nm': nm, 'mode': rng.choice(['OUTPUT', 'OUTPUT', 'APPEND', 'RANDOM']),
-                        'num': rng.choice([1, 1, 2, 15]), 'at': at, 'nth': rng.choice([1, 1, 1, 2, 2, 3]),
+            mode = rng.choice(['OUTPUT', 'OUTPUT', 'APPEND', 'RANDOM'])
+            # (OUTPUT is one host open; APPEND and RANDOM create, look at and reopen the file)
+            at = 'open' if mode == 'OUTPUT' and rng.random() < 0.9 else rng.choice(['open'] * 7 + ['close', 'seek', 'read'])
+            dev = rng.choice(['Z', 'Z', 'Z', '@']) if mode != 'RANDOM' else 'Z'
+            ops.append({'op': 'openfault', 'dev': dev, 'nm': nm, 'mode': mode,
+                        'num': rng.choice([1, 1, 2, 15]), 'at': at, 'nth': 1 if mode == 'OUTPUT' and rng.random() < 0.9 else rng.choice([1, 1, 1, 2, 2, 3]),
                         'errno': rng.choice([errno.EACCES, errno.EMFILE, errno.EIO, errno.ENOSPC]),
                         'data': rng.random() < 0.5, 'then': rng.choice(['CLOSE', 'CLOSE', 'RESET', 'CLOSE #', None])})
             touched.append([dev, nm])
@@ -837,9 +850,20 @@ class S15(object):
                 if r2.err is None:
                     self.maybe_open.clear()
         except EngineCrash as e:
-            e.exc_msg += ' [%s with injected %s, then %s]' % (line.decode('latin-1'), kind, op.get('then'))
+            # C15 says nothing about data files: a host exception out of OPEN/PRINT#/CLOSE is C01's business.
+            # Note it there and go on in a fresh Session (which ends the same-Session history).
+            _norm(e)
+            self.run.violate('C01', 'crash:' + e.signature, 'during C15 history (%s with injected %s, then %s): %s: %s\n%s' % (
+                line.decode('latin-1'), kind, op.get('then'), e.exc_type, e.exc_msg, e.tb[-1200:]))
+            self.run.probe('crash_unclaimed')
             self.run.state('openfault', dev, op['mode'], op['at'], 'crash')
-            self.crashed(e)
+            self.fs.disarm()
+            try:
+                self.d.close()
+            except EngineCrash:
+                pass
+            self.open_session()
+            self.resync('crash in OPEN of a data file')
             return
         self.run.state('openfault', dev, op['mode'], op['at'], op['nth'], fired, r.err, op.get('then'))
         if fired:
@@ -1098,6 +1122,7 @@ def _run15(run, case):
 
 MARK_ALPHA = 'BCDFGHJKLMNPQRSTVWXZ23456789'
 FRAG = 6
+_PLAIN = bytes(range(0x20, 0x7f))
 FKEYS = {1: u'\0\x3b', 2: u'\0\x3c', 3: u'\0\x3d', 4: u'\0\x3e', 5: u'\0\x3f', 6: u'\0\x40', 7: u'\0\x41',
          8: u'\0\x42', 9: u'\0\x43', 10: u'\0\x44'}
 BRK_LINES = (40, 50, 70, 70, 70, 80, 100, 130, 510, 900)   # lines without statements that wait inside
@@ -1191,14 +1216,22 @@ def _misc_stmt(rng):
         return 'save-dev-p', rng.choice(['SAVE "LPT1:",P', 'SAVE "LPT1:",P', 'SAVE "SCRN:",P', 'SAVE "CAS1:SP",P', 'SAVE "COM1:",P', 'SAVE "KYBD:",P',
                                          'SAVE "lpt1:",p', 'X=1:SAVE "LPT1:",P', 'SAVE "Z:S3.BAS",P', 'SAVE "COM1:",A', 'SAVE "COM1:"', 'SAVE "KYBD:",A']), None, []
     if k in (25, 26):
-        # values that an unprotected loader handed over in COMMON (op chainload)
-        return 'print-common', rng.choice([
-            'PRINT L1$;L2$;L3$;L4$', 'PRINT L1$', 'LPRINT L2$;L3$', 'T$=MID$(L1$,%d,%d):PRINT T$' % (rng.randint(1, 200), rng.randint(1, 255)),
-            'OPEN "Z:D2.DAT" FOR OUTPUT AS 1:PRINT#1,L1$;L2$;L3$:CLOSE', 'OPEN "Z:D3.DAT" FOR OUTPUT AS 1:WRITE#1,L1$,L3$:CLOSE',
-            'T$=L2$+"":S$=L3$', 'PRINT LEN(L1$);LEN(L2$);N%', 'OPEN "SCRN:" FOR OUTPUT AS 1:PRINT#1,L1$:CLOSE']), None, ['L1$', 'L2$', 'L3$', 'L4$', 'T$', 'S$']
+        return _common_stmt(rng)
     if k == 22:
         # an image of the protection flag byte, made in an ordinary session: loading it is another way to write the flag
         return 'bload-flag', rng.choice(['DEF SEG:BLOAD "Z:FLAG0.BIN"', 'DEF SEG:BLOAD "Z:FLAG0.BIN",1450', 'X=1:DEF SEG:BLOAD "Z:FLAG0.BIN":LIST']), None, []
+    return _misc_stmt2(rng, ln, k)
+
+
+def _common_stmt(rng):
+    """Direct-mode looks at the values that an unprotected loader handed over in COMMON (op chainload)."""
+    return 'print-common', rng.choice([
+        'PRINT L1$;L2$;L3$;L4$', 'PRINT L1$', 'LPRINT L2$;L3$', 'T$=MID$(L1$,%d,%d):PRINT T$' % (rng.randint(1, 200), rng.randint(1, 255)),
+        'OPEN "Z:D2.DAT" FOR OUTPUT AS 1:PRINT#1,L1$;L2$;L3$:CLOSE', 'OPEN "Z:D3.DAT" FOR OUTPUT AS 1:WRITE#1,L1$,L3$:CLOSE',
+        'T$=L2$+"":S$=L3$', 'PRINT LEN(L1$);LEN(L2$);N%', 'OPEN "SCRN:" FOR OUTPUT AS 1:PRINT#1,L1$:CLOSE']), None, ['L1$', 'L2$', 'L3$', 'L4$', 'T$', 'S$']
+
+
+def _misc_stmt2(rng, ln, k):
     if k == 0:
         return 'read', rng.choice(['READ A$', 'READ A$,S$', 'READ X,A$:PRINT A$', 'RESTORE:READ X,A$,S$', 'RESTORE 20:READ X:READ A$:LPRINT A$']), None, ['A$', 'S$']
     if k == 1:
@@ -1324,18 +1357,16 @@ def _gen16(rng, tier):
                     'line': rng.choice([None, None, None, 60, 10]), 'src': src, 'nm': 'LD%d' % rng.randint(1, 2),
                     'via': rng.choice(['exec', 'exec', 'type']), 'brk': brk()})
         for _ in range(rng.randint(1, 3)):
-            kind, line, eff, vv = _misc_stmt(rng)
-            while kind != 'print-common':
-                kind, line, eff, vv = _misc_stmt(rng)
+            kind, line, eff, vv = _common_stmt(rng)
             ops.append({'op': 'stmt', 'kind': kind, 'line': line, 'via': via(line), 'exp': None, 'eff': eff, 'vars': vv})
 
-    if rng.random() < 0.15:
+    if rng.random() < 0.08:
         chain_op()
     else:
         load_op()
     while len(ops) < nops:
         r = rng.random()
-        if r < 0.05:
+        if r < 0.035:
             chain_op()
         elif r < 0.46:
             kind, line = _ifc_stmt(rng)
@@ -1440,6 +1471,7 @@ class S16(object):
         self.modified = False  # lines deleted / renumbered since the load
         self.read_done = False
         self.leaked = set()
+        self.tokwin = {}       # 6-byte windows of the protected program's tokenised image -> offset
         self.pbytes = None
         self.start = None
         self.ref_runs = {}
@@ -1471,6 +1503,20 @@ class S16(object):
             self.run.violate('C16', sig, 'op #%d (%s): marker %r planted in %s appears in %s: ...%r... [model: protected=%r trap=%r]' % (
                 self.opno, self.opkind, mk, {'rem': 'a REM', 'data': 'a DATA line', 'lit': 'a never-printed literal'}[loc], sink,
                 bytes(data[max(0, i - 30):i + 30]), self.prot, self.trap))
+        if 'tok' not in self.leaked and self.tokwin and len(data) >= FRAG and len(data.translate(None, _PLAIN)) >= 2:
+            # raw bytes of the tokenised program (not only the planted markers)
+            tw = self.tokwin
+            for i in range(len(data) - FRAG + 1):
+                if data[i:i + FRAG] in tw:
+                    j = i
+                    while j + 1 <= len(data) - FRAG and tw.get(data[j + 1:j + 1 + FRAG]) == tw[data[i:i + FRAG]] + (j + 1 - i):
+                        j += 1
+                    self.leaked.add('tok')
+                    found = True
+                    self.run.violate('C16', 'leak:tokenised-text:%s' % sink, 'op #%d (%s): %d consecutive bytes of the protected program\'s tokenised text '
+                                     '(offset %d of its image) appear in %s: ...%r... [model: protected=%r trap=%r]' % (
+                                         self.opno, self.opkind, j - i + FRAG, tw[data[i:i + FRAG]], sink, bytes(data[max(0, i - 10):j + FRAG + 10]), self.prot, self.trap))
+                    break
         return found
 
     def scan_all(self, out, vars_=()):
@@ -1615,6 +1661,7 @@ class S16(object):
         except Malformed as e:
             raise K.HarnessError('setup image malformed: %s' % e)
         self.proglen = len(img)
+        self.pimg = img
         # reference outputs of the unprotected original under each break schedule used by RUN ops
         for op in ops:
             if op['op'] == 'run' and op.get('cmd') == 'RUN' and op.get('via') == 'exec':
@@ -1636,6 +1683,15 @@ class S16(object):
         d.exec(b'LOAD "Z:U.BAS"')
         d.exec(b'SAVE "Z:UB.BAS"')
         d.close()
+        # windows of the protected program's tokenised image that are binary enough never to be produced by
+        # anything else in the run (at least two bytes that are not printable ASCII), minus those that the other
+        # party's own tokenised program happens to share
+        other = _read(root + '/z/UB.BAS')
+        img = self.pimg
+        for i in range(len(img) - FRAG + 1):
+            win = img[i:i + FRAG]
+            if len(win.translate(None, _PLAIN)) >= 2 and win not in other and win not in self.tokwin:
+                self.tokwin[win] = i
 
     @staticmethod
     def ref_key(brk):
@@ -1698,6 +1754,70 @@ class S16(object):
             self.after_run()
         self.run.state('load', how, src, op.get('via'), fired, tuple(e[:2]), self.prot, self.trap)
         self.scan_all(out)
+
+    def op_chainload(self, op):
+        """An unprotected loader (another party's file) assigns strings to COMMON variables and CHAINs to the
+        protected file. The protected program runs; what direct mode can see afterwards is scanned as always,
+        and the COMMON values must be what the loader assigned."""
+        vs = [v for v in op.get('vars', []) if v[0] in ('L1$', 'L2$', 'L3$', 'L4$')]
+        src = op.get('src', 'P')
+        target = self.pname() if src == 'P' else 'Z:T.BAS'
+        lines = []
+        for f in op.get('fill', []):
+            lines.append('REM ' + 'x' * f)
+        if not op.get('all') and vs:
+            lines.append('COMMON ' + ','.join(v[0] for v in vs) + ',N%')
+        for name, how, lit in vs:
+            lit = lit[:235]
+            if how == 'lit':
+                lines.append('%s="%s"' % (name, lit))
+            elif how == 'expr':
+                lines.append('%s="%s"+""' % (name, lit))
+            else:
+                lines.append('T9$="%s":%s=T9$' % (lit[:230], name))
+        lines.append('N%=4711')
+        ln = op.get('line')
+        if op.get('all'):
+            lines.append('CHAIN "%s",%s,ALL' % (target, ln or ''))
+        else:
+            lines.append('CHAIN "%s"%s' % (target, ',%d' % ln if ln else ''))
+        nm = op.get('nm', 'LD1')
+        _write('%s/z/%s.BAS' % (self.root, nm), b''.join(b'%d %s\r\n' % (i + 1, b(l)) for i, l in enumerate(lines)) + b'\x1a')
+        nfired = len(self.fs.fired)
+        ncrash = self.crashes
+        try:
+            out = self.do('RUN "Z:%s.BAS"' % nm, op.get('via', 'exec'), self.safety_brk(op.get('brk')))
+        finally:
+            self.fs.disarm()
+        fired = len(self.fs.fired) > nfired
+        e = self.errs(out)
+        intact = src == 'P' and not fired and self.crashes == ncrash
+        started = b'START' in out
+        if intact and not e and not self.trap and started:
+            self.prot = True
+        else:
+            self.prot = None
+        self.modified = False
+        self.after_run()
+        self.run.state('chainload', src, op.get('via'), bool(op.get('all')), fired, tuple(e[:2]), self.prot, started, len(vs))
+        names = [v[0] for v in vs]
+        if intact and started:
+            # the protected program has taken over (it printed): the loader's COMMON values went with it
+            self.run.probe('common_checked')
+            for name, how, lit in vs:
+                want = b(lit[:230] if how == 'copy' else lit[:235])
+                try:
+                    val = self.d.get(b(name))
+                except EngineCrash as ex:
+                    self.crash(ex)
+                    break
+                if val != want:
+                    self.run.violate('C16', 'common-changed-over-chain-to-protected:%s' % how,
+                                     'op #%d: the loader assigned %s=%r (%s) and chained to the protected program; in direct mode afterwards %s is %r' % (
+                                         self.opno, name, want[:40], {'lit': 'a literal in its program text', 'expr': 'a string expression', 'copy': 'a copy of a literal'}[how],
+                                         name, val if not isinstance(val, (bytes, bytearray)) else bytes(val[:80])))
+                    break
+        self.scan_all(out, names + ['T9$'])
 
     def op_stmt(self, op):
         line, viaa = op['line'], op.get('via', 'exec')
@@ -1906,6 +2026,17 @@ def simplify(cfg, ops):
             yield cfg, ops[:i] + [dict(op, resident=op['resident'][:-1])] + ops[i + 1:]
         if op['op'] in ('torn', 'savefault') and op.get('dev') != 'Z':
             yield cfg, ops[:i] + [dict(op, dev='Z')] + ops[i + 1:]
+        if op['op'] == 'settle' and len(op.get('fmts', [])) > 1:
+            for f in op['fmts']:
+                yield cfg, ops[:i] + [dict(op, fmts=[f])] + ops[i + 1:]
+        if op['op'] == 'settle' and len(op.get('targets', [])) > 1:
+            for t in op['targets']:
+                yield cfg, ops[:i] + [dict(op, targets=[t])] + ops[i + 1:]
+        if op['op'] == 'chainload' and len(op.get('vars', [])) > 1:
+            for v in op['vars']:
+                yield cfg, ops[:i] + [dict(op, vars=[v])] + ops[i + 1:]
+        if op['op'] == 'chainload' and op.get('fill'):
+            yield cfg, ops[:i] + [dict(op, fill=op['fill'][:-1])] + ops[i + 1:]
     if cfg.get('lines') and len(cfg['lines']) > 1:
         for i in range(len(cfg['lines'])):
             yield dict(cfg, lines=cfg['lines'][:i] + cfg['lines'][i + 1:]), ops
